@@ -12,6 +12,8 @@ func init() { register("C17", checkC17) }
 func checkC17(p *Prog, r *Report) {
 	c17List(p, r)
 	c17Consumer(p, r)
+	dispatcherRule(p, r, "C17.R5")
+	c17LineCounter(p, r)
 }
 
 type rangePrint struct {
